@@ -60,6 +60,17 @@ func (r *simReader) Read(p []byte) (int, error) {
 	if len(p) == 0 {
 		return 0, nil
 	}
+	// a cancelled request (the caller's timeout has fired): the connection is gone; only what the client
+	// had already buffered together with the headers can still be read
+	if r.done != nil && r.pos >= 2048 {
+		select {
+		case <-r.done:
+			r.fire("cancelled-between-reads")
+			r.oo.Delivered = r.pos
+			return 0, r.ctxErr()
+		default:
+		}
+	}
 	c := r.call
 	r.call++
 	if r.zi < len(r.rp.ZeroReads) && r.rp.ZeroReads[r.zi] <= c {
@@ -408,7 +419,8 @@ func installSink(kind, dir string) (*sink, error) {
 	switch kind {
 	case "", "null":
 		s.file, err = os.OpenFile("/dev/null", os.O_WRONLY, 0)
-	case "file":
+	case "file", "slow", "stuck":
+		// slow / stuck: a regular file behind a simulated device that takes its time (see kernel.logWrite)
 		s.path = dir + "/sink.log"
 		s.file, err = os.OpenFile(s.path, os.O_CREATE|os.O_WRONLY|os.O_TRUNC, 0o644)
 	case "full":
